@@ -543,3 +543,74 @@ Theorem C12_ex_premises :
   consistent 0 default_config 1 (map ex_txt (tl [0; 1; 2; 3; 4])) [(1, 3)].
 Proof. exact ex_premises. Qed.
 Print Assumptions C12_ex_premises.
+
+(* --------------------------------------------------------------------------------------------------------------
+   SOURCE TIE (the runner's frame): CommandLineTestRunner::initializeTestRun / runAllTestsMain / the static RunAllTests(ac, av) as translated on every run into gen/Gen_HeapC12R.v -- the exact calls made for every parsed command line and every outcome: the pointer plugin and the leak plugin are installed once and removed by name whatever the result, the run happens iff the arguments parsed, the final report is printed iff the result is 0
+   -------------------------------------------------------------------------------------------------------------- *)
+From CppUVerif Require gen.Gen_HeapC12R C12_RunnerTie.
+Local Open Scope Z_scope.
+Theorem C12_initializeTestRun_events :
+  forall (fuel : nat) (h : heap) (evs : list Gen_HeapC12R.rnev) (gf nf v vv c sep ri cr rt : Z)
+  (ps rs ms : list Z) (this : hptr),
+  Gen_HeapC12R.src_runner_initializeTestRun fuel h evs gf nf v vv c sep ri cr rt ps rs ms this =
+  FOk
+  (tt, h, evs ++ C12_RunnerTie.init_events gf nf v vv c sep ri cr rt, gf, nf, v, vv, c, sep, ri, cr, rt, ps,
+  rs, ms).
+Proof. exact C12_RunnerTie.initializeTestRun_events. Qed.
+Print Assumptions C12_initializeTestRun_events.
+
+Theorem C12_initializeTestRun_effect :
+  forall (s : C12_RunnerTie.switches) (gf nf v vv c sep ri cr rt : Z),
+  let s' := C12_RunnerTie.after s (C12_RunnerTie.init_events gf nf v vv c sep ri cr rt) in
+  C12_RunnerTie.s_gf s' = gf /\
+  C12_RunnerTie.s_nf s' = nf /\
+  C12_RunnerTie.s_rethrow s' = z2b rt /\
+  C12_RunnerTie.s_run_ignored s' = C12_RunnerTie.s_run_ignored s || z2b ri /\
+  C12_RunnerTie.s_separate s' = C12_RunnerTie.s_separate s || z2b sep /\
+  C12_RunnerTie.s_crash s' = C12_RunnerTie.s_crash s || z2b cr /\
+  C12_RunnerTie.s_color s' = C12_RunnerTie.s_color s || z2b c /\
+  C12_RunnerTie.s_verbosity s' = (if z2b vv then 2 else if z2b v then 1 else C12_RunnerTie.s_verbosity s).
+Proof. exact C12_RunnerTie.initializeTestRun_effect. Qed.
+Print Assumptions C12_initializeTestRun_effect.
+
+Theorem C12_runAllTestsMain_parsed :
+  forall (fuel : nat) (h : heap) (evs : list Gen_HeapC12R.rnev) (gf nf v vv c sep ri cr rt ok : Z)
+  (ps : list Z) (r : Z) (rs ms : list Z) (this : hptr),
+  z2b ok = true ->
+  Gen_HeapC12R.src_runner_runAllTestsMain fuel h evs gf nf v vv c sep ri cr rt (ok :: ps) (r :: rs) ms this =
+  FOk (r, h, evs ++ C12_RunnerTie.main_events ok r, gf, nf, v, vv, c, sep, ri, cr, rt, ps, rs, ms).
+Proof. exact C12_RunnerTie.runAllTestsMain_parsed. Qed.
+Print Assumptions C12_runAllTestsMain_parsed.
+
+Theorem C12_runAllTestsMain_rejected :
+  forall (fuel : nat) (h : heap) (evs : list Gen_HeapC12R.rnev) (gf nf v vv c sep ri cr rt ok : Z)
+  (ps rs ms : list Z) (this : hptr),
+  z2b ok = false ->
+  Gen_HeapC12R.src_runner_runAllTestsMain fuel h evs gf nf v vv c sep ri cr rt (ok :: ps) rs ms this =
+  FOk (1, h, evs ++ C12_RunnerTie.main_events ok 0, gf, nf, v, vv, c, sep, ri, cr, rt, ps, rs, ms).
+Proof. exact C12_RunnerTie.runAllTestsMain_rejected. Qed.
+Print Assumptions C12_runAllTestsMain_rejected.
+
+Theorem C12_RunAllTests_events :
+  forall (fuel : nat) (h : heap) (evs : list Gen_HeapC12R.rnev) (gf nf v vv c sep ri cr rt : Z)
+  (ps rs : list Z) (r : Z) (ms : list Z) (this : hptr) (ac : Z) (av : hptr),
+  Gen_HeapC12R.src_runner_RunAllTests fuel h evs gf nf v vv c sep ri cr rt ps rs (r :: ms) this ac av =
+  FOk (r, h, evs ++ C12_RunnerTie.static_events r, gf, nf, v, vv, c, sep, ri, cr, rt, ps, rs, ms).
+Proof. exact C12_RunnerTie.RunAllTests_events. Qed.
+Print Assumptions C12_RunAllTests_events.
+
+Theorem C12_plugins_removed_whatever_the_result :
+  forall ok r r' : Z,
+  C12_RunnerTie.installs (C12_RunnerTie.main_events ok r) = 1%nat /\
+  C12_RunnerTie.removes (C12_RunnerTie.main_events ok r) = [2] /\
+  C12_RunnerTie.installs (C12_RunnerTie.static_events r') = 1%nat /\
+  C12_RunnerTie.removes (C12_RunnerTie.static_events r') = [1] /\
+  last (C12_RunnerTie.main_events ok r) Gen_HeapC12R.RPrint = Gen_HeapC12R.RRemove 2 /\
+  last (C12_RunnerTie.static_events r') Gen_HeapC12R.RPrint = Gen_HeapC12R.RRemove 1.
+Proof. exact C12_RunnerTie.plugins_removed_whatever_the_result. Qed.
+Print Assumptions C12_plugins_removed_whatever_the_result.
+
+Theorem C12_final_report_iff_result_zero :
+  forall r : Z, In (Gen_HeapC12R.RFinalReport 0) (C12_RunnerTie.static_events r) <-> r = 0.
+Proof. exact C12_RunnerTie.final_report_iff_result_zero. Qed.
+Print Assumptions C12_final_report_iff_result_zero.
